@@ -691,6 +691,11 @@ func (rt *runtime) toValue(value interface{}) Value {
 		case reflect.Array:
 			return objectValue(rt.newGoArray(val))
 		case reflect.Func:
+			if val.IsNil() {
+				// A nil func is undefined, like a nil pointer: reflect.Value.Call panics on it.
+				return Value{}
+			}
+
 			var name, file string
 			var line int
 			if v := reflect.ValueOf(val); v.Kind() == reflect.Ptr {
